@@ -43,6 +43,10 @@ def scenarios_for(model, tier):
             for p in progs:
                 out.append(("%s: %s" % (flavor, EV.prog_name(p)), ["--model", "events_" + flavor, "--programs", json.dumps(p)]))
         return out
+    if model == "region_cached":
+        from mirproto import region_cached_model as RC
+        return [(RC.prog_name(sc), ["--model", "region_cached", "--programs", json.dumps(sc[:3]), "--kcap", str(sc[3] if tier == "quick" else sc[4])])
+                for sc in (RC.QUICK if tier == "quick" else RC.THOROUGH)]
     if model == "future_deque":
         from mirproto import future_deque_model as FD
         return [(FD.prog_name(sc), ["--model", "future_deque", "--programs", json.dumps(sc)]) for sc in (FD.QUICK if tier == "quick" else FD.THOROUGH + FD.generated_family())]
@@ -80,8 +84,8 @@ def run_property(prop, spec, tier, seed, only=None, jobs=10):
             res["noverdict"].append(("fingerprint", str(d)[:600]))
             return res
         fp.update({"awaiter_set/%s" % k: v for k, v in d.items()})
-    elif model == "future_deque":
-        fp = {"future_deque": "interpreted-from-mir"}      # nothing of the crate is modelled by hand
+    elif model in ("future_deque", "region_cached"):
+        fp = {model: "interpreted-from-mir"}      # nothing of the crate is modelled by hand
     else:
         fp = worker(["fingerprint", "--mir", mir_path], 300)
         if fp.get("verdict") in ("error", "timeout"):
@@ -100,7 +104,7 @@ def run_property(prop, spec, tier, seed, only=None, jobs=10):
         allfp[model] = fp
         json.dump(allfp, open(FINGERPRINTS, "w"), indent=1, sort_keys=True)
         expected = fp
-    if model == "future_deque":
+    if model in ("future_deque", "region_cached"):
         expected = fp
     changed = sorted(set(k for k, v in expected.items() if fp.get(k) != v) | set(k for k in fp if k not in expected))
     if changed or not expected:
